@@ -38,7 +38,7 @@ def name_table(names, rng, family):
     names = sorted(names)
     tab = {}
     if family == "ascii":
-        pool = {"a": "a", "b": "b", "c": "c", "bbb": "bbb", "long1": "temperature", "long2": "surface_pressure"}
+        pool = {"a": "a", "b": "b", "c": "c", "d": "d", "bbb": "bbb", "long1": "temperature", "long2": "surface_pressure"}
         for n in names:
             tab[n] = pool.get(n, n)
     elif family == "utf8":
